@@ -42,6 +42,7 @@ type c09Op struct {
 	Delay   int64  `json:"delay,omitempty"` // path delay (us)
 	Forge   int    `json:"forge,omitempty"` // 0 as generated, 1 re-encoded layout, 2 with overrun/padded chunks, 3 delivered twice, 4 held back and delivered after the next feedback (reordered), 5 delivered twice at the same time on two RTCP readers
 	LaySeed int64  `json:"lay,omitempty"`
+	FastFb  bool   `json:"fast_fb,omitempty"` // send: feedback about this packet arrives while the next writer has not yet returned
 }
 
 type c09 struct{}
@@ -79,6 +80,7 @@ func (c09) Gen(seed int64, tier string, avoid []string) *Plan {
 	for i := 0; i < n; i++ {
 		at += int64(pick(r, 200, 1000, 5000))
 		o := c09Op{K: "s", S: r.Intn(cfg.Streams), AtUs: at, HS: r.Int63(), Len: pick(r, 0, 50, 1200), Delay: int64(1000 + r.Intn(30000))}
+		o.FastFb = cfg.Target == "rtpfb" && chance(r, 40)
 		if chance(r, lossP) {
 			o.Fate = 1
 		} else if chance(r, dupP) {
@@ -154,7 +156,12 @@ func (c09) Run(e *Env) {
 			if cfg.TWCC && !cfg.NoTWCC[s] {
 				info.RTPHeaderExtensions = []interceptor.RTPHeaderExtension{{URI: twccURI, ID: extID}}
 			}
-			writers = append(writers, ic.BindLocalStream(info, interceptor.RTPWriterFunc(func(h *rtp.Header, pl []byte, _ interceptor.Attributes) (int, error) { return len(pl), nil })))
+			writers = append(writers, ic.BindLocalStream(info, interceptor.RTPWriterFunc(func(h *rtp.Header, pl []byte, a interceptor.Attributes) (int, error) {
+				if st, ok := a.Get("c09stall").(int64); ok {
+					simrt.Sleep(us(st)) // the packet is on the wire, the transport has not returned yet
+				}
+				return len(pl), nil
+			})))
 		}
 		rtcpR = ic.BindRTCPReader(interceptor.RTCPReaderFunc(func(b []byte, a interceptor.Attributes) (int, interceptor.Attributes, error) {
 			if raw, ok := a.Get("c09raw").([]byte); ok {
@@ -217,6 +224,20 @@ func (c09) Run(e *Env) {
 				if err := adapter.OnSent(now, h, len(pl), attrs); err != nil {
 					e.Violatef("oracle", "c09:onsent", "%v", err)
 				}
+			} else if o.FastFb && !(cfg.TWCC && !useTWCC) {
+				// fast feedback: the peer acknowledges the packet while our Write is still inside the transport
+				e.Fault("feedback_before_write_returned")
+				g := e.Go("stalled-writer", func() { writers[s].Write(h, pl, interceptor.Attributes{"c09stall": int64(2000)}) })
+				simrt.Sleep(time.Millisecond)
+				var raw []byte
+				if cfg.TWCC {
+					rcv := cfg.BaseUs + o.AtUs + 1000
+					raw = encodeTWCC(4242, ssrc, ps.tseq, uint32(rcv/64000)&0xFFFFFF, 0, []twccSym{{Recv: true, DeltaUs: rcv % 64000 / 250 * 250}}, rand.New(rand.NewSource(o.HS)), false)
+				} else {
+					raw = encodeCCFB(4242, []ccfbIn{{SSRC: ssrc, Begin: ps.seq, Metrics: []ccfbMetric{{Seq: ps.seq, Received: true, ATO: 1}}}}, c16NTP(time.Now()))
+				}
+				c09Deliver(e, cfg, adapter, rtcpR, &rtcpIn, buf, raw, time.Now(), byT, byS, &lastOrder)
+				e.Wait(g)
 			} else {
 				writers[s].Write(h, pl, interceptor.Attributes{})
 			}
@@ -304,7 +325,9 @@ func (c09) Run(e *Env) {
 				}
 				if o.Forge == 5 && adapter == nil {
 					e.Fault("feedback_on_two_readers_at_once")
-					c09DeliverPair(e, cfg, rtcpR, raw, byT, byS, &lastOrder)
+					// (two *different* feedbacks at once would make the expected statuses depend on which is applied
+					// first, which cannot be observed; the unsynchronised variant of that is C10's business)
+					c09DeliverPair(e, cfg, rtcpR, raw, nil, byT, byS, &lastOrder)
 					continue
 				}
 				for t := 0; t < times; t++ {
@@ -459,8 +482,27 @@ func c09Deliver(e *Env, cfg c09Cfg, adapter *xverif.FeedbackAdapter, rtcpR inter
 
 // c09DeliverPair hands the same feedback to two RTCP readers of the rtpfb interceptor at the same instant
 // (RTCP readers of different streams run on different goroutines) and checks both reports.
-func c09DeliverPair(e *Env, cfg c09Cfg, rtcpR interceptor.RTCPReader, raw []byte, byT map[uint16]*c09Sent, byS map[[2]uint32]*c09Sent, lastOrder *int) {
-	if !c09Declare(e, cfg, raw, byT, byS) {
+func c09DeliverPair(e *Env, cfg c09Cfg, rtcpR interceptor.RTCPReader, raw, other []byte, byT map[uint16]*c09Sent, byS map[[2]uint32]*c09Sent, lastOrder *int) {
+	// the second reader gets an earlier feedback if the two do not contradict each other about any packet
+	// (which one is applied last is not observable), otherwise the same one
+	raws := [2][]byte{raw, raw}
+	if other != nil {
+		if dOther, _, _, ok := c09DeclareX(e, cfg, other, byT, byS); ok {
+			if dRaw, _, _, ok2 := c09DeclareX(e, cfg, raw, byT, byS); ok2 {
+				conflict := false
+				for ps, en := range dOther {
+					if en2, both := dRaw[ps]; both && en2 != en {
+						conflict = true
+					}
+				}
+				if !conflict {
+					raws[1] = other
+					e.Fault("two_different_feedbacks_at_once")
+				}
+			}
+		}
+	}
+	if !c09Declare(e, cfg, raws[1], byT, byS) || !c09Declare(e, cfg, raws[0], byT, byS) {
 		return
 	}
 	var reps [2]rtpfb.Report
@@ -469,7 +511,7 @@ func c09DeliverPair(e *Env, cfg c09Cfg, rtcpR interceptor.RTCPReader, raw []byte
 	for k := 0; k < 2; k++ {
 		gs = append(gs, e.Go(fmt.Sprintf("rtcp-reader%d", k), func() {
 			attrs := interceptor.Attributes{}
-			attrs.Set("c09raw", raw)
+			attrs.Set("c09raw", raws[k])
 			_, attr, err := rtcpR.Read(make([]byte, 1500), attrs)
 			errs[k] = err
 			if err == nil {
